@@ -154,10 +154,13 @@ def rules(chk: Check) -> None:
     if len(spin_tests) == 1:
         t = spin_tests[0]
         pol = None
-        if eqx(t, f"{SPIN}({ODE}.t, {ODE}.y) <= 0"):
-            pol = True
-        elif eqx(t, f"{SPIN}({ODE}.t, {ODE}.y) > 0"):
-            pol = False
+        core_t, flip = t, False
+        while isinstance(core_t, ast.UnaryOp) and isinstance(core_t.op, ast.Not):
+            core_t, flip = core_t.operand, not flip
+        if eqx(core_t, f"{SPIN}({ODE}.t, {ODE}.y) <= 0"):
+            pol = not flip
+        elif eqx(core_t, f"{SPIN}({ODE}.t, {ODE}.y) > 0"):
+            pol = flip
         if pol is not None:
             # ... without first taking another step
             ok_b = not any(g.reaches(g.branch(t, pol), a, avoid=lambda q: q is steps[0]) for a in APP)
